@@ -2,6 +2,7 @@
 pub mod respgen;
 pub mod connrun;
 pub mod conngen;
+pub mod srvrun;
 
 /// splitmix64 — every random choice of a run derives from one state seeded by VERIF_SEED.
 #[derive(Clone)]
